@@ -130,9 +130,9 @@ ORDINARY = ['select a, (select max(b) from (select c from (select d from t where
             'select foo(bar(x), 1) y, t1.c from t1 x, (select c from t2 where d = 1 order by c) z where x.k = z.k -- c\n group by 1',
             'select a, b from t', 'create procedure p() begin if a then update t set b = f(c) where d > 1; end if; end']
 def snapshot(full=True):
-    # what ordinary calls give: the trees (classes and nesting); full: also the pieces and three formattings
+    # what ordinary calls give: the trees (classes and nesting) of all four scripts, the pieces and three formattings; not full: the trees of two of them
     if not full:
-        return [shape(sqlparse.parse(t)) for t in ORDINARY]
+        return [shape(sqlparse.parse(t)) for t in ORDINARY[1:3]]
     return [(shape(sqlparse.parse(t)), sqlparse.split(t), sqlparse.format(t, reindent=True), sqlparse.format(t, reindent_aligned=True, keyword_case='upper'),
              sqlparse.format(t, strip_comments=True, use_space_around_operators=True)) for t in ORDINARY]
 BEFORE = snapshot()        # at the start of the process, before any pathological call
@@ -142,8 +142,8 @@ def later_ok(full=None):
     r = _later_ok()
     _calls[0] += 1
     if full is None:
-        full = _calls[0] %% 8 == 0          # the trees after every case, everything after every eighth case and after the soak
-    if r is True and (snapshot() != BEFORE if full else snapshot(False) != [b[0] for b in BEFORE]):
+        full = _calls[0] %% 12 == 0          # two of the trees after every case, everything after every twelfth case and after the soak
+    if r is True and (snapshot() != BEFORE if full else snapshot(False) != [b[0] for b in BEFORE[1:3]]):
         # history: an ordinary call after the failures of this process must give what the same call gave before them
         return 'ordinary calls give different results than before the pathological calls of this process'
     return r
